@@ -1,10 +1,21 @@
 #!/bin/sh
 # Build the Lean project from files on disk only: the property modules and drivers of every claimed check
 # (lean/targets.txt is written by tools/gen_manifest.py from tools/manifest_src.json).
+# A target that does not build is NOT a setup failure: every check rebuilds its own modules and drivers and reports
+# a module that no longer checks as a broken proof obligation of its property (with the failing-input search).
+# Setup fails only if the tool chain itself is unusable.
 cd "$(dirname "$0")/lean" || exit 2
+command -v lake > /dev/null 2>&1 || { echo "lake not found"; exit 2; }
 targets=$(cat targets.txt)
 echo "building:" $targets
 rc=0
 flock .lock lake build $targets > .setup.log 2>&1 || rc=$?
+if [ $rc -ne 0 ]; then
+  # build whatever else can be built (lake stops scheduling after a failure only for dependants)
+  echo "setup: some targets did not build (rc=$rc); building the remaining targets one by one"
+  for t in $targets; do
+    flock .lock lake build "$t" >> .setup.log 2>&1 || echo "setup: target $t does not build (its check will report it)"
+  done
+fi
 grep -v "^⚠\|warning\|linter\|Hint\|\[apply\]\|^Note\|^$" .setup.log | tail -15
-exit $rc
+exit 0
